@@ -29,8 +29,9 @@ def lift(I, x):
     return I.lift(x)
 
 
-def leftovers(v: Value, out=None, seen=None):
-    """strings starting with '@' anywhere in a (possibly cyclic) tree"""
+def leftovers(v: Value, out=None, seen=None, names=()):
+    """strings starting with '@' - and strings that still contain the name of one of the defined macros `names` - anywhere
+    in a (possibly cyclic) tree"""
     out = [] if out is None else out
     seen = set() if seen is None else seen
     if id(v) in seen:
@@ -38,15 +39,17 @@ def leftovers(v: Value, out=None, seen=None):
     if isinstance(v, Str):
         if v.atoms and isinstance(v.atoms[0], Lit) and v.atoms[0].startswith("@"):
             out.append(v.render())
+        elif any(isinstance(a, Lit) and n in a for a in v.atoms for n in names):
+            out.append(v.render())
     elif isinstance(v, (ListV, TupleV)):
         seen.add(id(v))
         for x in v.items:
-            leftovers(x, out, seen)
+            leftovers(x, out, seen, names)
     elif isinstance(v, DictV):
         seen.add(id(v))
         for k, x in v.pairs:
-            leftovers(k, out, seen)
-            leftovers(x, out, seen)
+            leftovers(k, out, seen, names)
+            leftovers(x, out, seen, names)
     return out
 
 
@@ -85,6 +88,8 @@ SHAPES = [
     ("string macros that stand for each other", [{"name": "@p", "pattern": "@q"}, {"name": "@q", "pattern": "@p"}],
      [{"mov": ["@p", "rax"]}], False),
     ("all defined: string macro inside a name", [{"name": "@any", "pattern": "[^,| ]{1,1000}"}], [{"mov": ["%r@any"]}], False),
+    ("all defined: string macro several times inside one name", [{"name": "@reg", "pattern": "r[a-d]x"}, {"name": "@l", "pattern": "l"}],
+     [{"lea": ["%@reg\\+%@reg\\*4", "@reg"]}, {"cmov@l@l": ["x@regy@regz@reg"]}, "j@l@l"], False),
 ]
 
 
@@ -153,7 +158,7 @@ def shape_rules(ctx, I, R1, R4, R2, only_undefined=False):
                           "a rule that supplies macro definitions goes through the expander")
             for p in paths:
                 if p.kind == "return":
-                    left = leftovers(p.value)
+                    left = leftovers(p.value, names=tuple(m["name"] for m in macros if isinstance(m.get("name"), str)))
                     if expect_undef:
                         ctx.fail(R1, construct,
                                  f"returns normally ({'; '.join(p.cond_labels())[:80]}) leftovers={left}",
